@@ -341,7 +341,8 @@ def _cnn(d, method, args, tagp=""):
         return _cnn(d, "add_channel", {}, tagp + "fallback:")
     if method == "change_kernel":
         if len(C) <= 1:
-            return _cnn(d, "add_layer", {}, tagp + "fallback:")
+            # one layer: falls back on add_layer, or on add_channel where layer mutations are disabled (network encoders)
+            return _cnn(d, "add_layer", {}, tagp + "fallback:") + _cnn(d, "add_channel", {}, tagp + "fallback:")
         hl = args.get("hidden_layer")
         layers = list(range(1, min(4, len(C)))) if hl is None else [int(hl)]
         maps = feature_maps(d)
